@@ -7,6 +7,8 @@
 #include <stdio.h>
 #include <algorithm>
 #include <functional>
+#include <set>
+#include <map>
 
 namespace gen {
 
@@ -127,7 +129,8 @@ struct Builder {
 		if (extra_keys && rng.chance(1, 2)) return nkeys - 1 - (int)rng.below(2); // one of the two random keys
 		return (int)rng.below(key_limit ? key_limit : nkeys);
 	}
-	uint32_t rnd_cache_flags() { return rng.pick(gc.cache_flagsets); }
+	int force_argon = -1; // >= 0: every cache of the plan uses this Argon2 implementation flag (threads then run the same code)
+	uint32_t rnd_cache_flags() { uint32_t f = rng.pick(gc.cache_flagsets); if (force_argon >= 0) f = (f & ~(F_SSSE3 | F_AVX2)) | ((uint32_t)force_argon & gc.cpu_flags & (F_SSSE3 | F_AVX2)); return f; }
 	uint32_t rnd_vm_flags_light() { uint32_t f = rng.pick(gc.vm_flagsets_light); if (rng.chance(1, 2)) f |= F_V2; return f; }
 	uint32_t rnd_vm_flags_fast() { uint32_t f = rng.pick(gc.vm_flagsets_fast); if (rng.chance(1, 2)) f |= F_V2; return f; }
 };
@@ -471,6 +474,7 @@ static void gen_c14(Builder &b, bool thorough) {
 	b.key_limit = 3;
 	int ntasks = (int)rng.range(2, 4);
 	b.phase = 0; b.task = 0;
+	if (gc.mode == "preempt" && rng.chance(1, 2)) b.force_argon = (int)rng.pick(std::vector<uint32_t>{0u, F_SSSE3, F_AVX2, F_AVX2});
 	// shared objects
 	bool full_shipped = !gc.small && gc.mode == "fullshipped"; // threads hash in fast mode over one shared, complete 2 GiB dataset
 	uint32_t cf = b.rnd_cache_flags();
@@ -514,8 +518,10 @@ static void gen_c14(Builder &b, bool thorough) {
 		int my_cache = -1;
 		int guard = 0;
 		int emitted = 0;
+		const bool preempt_mode = gc.mode == "preempt";
 		while (emitted < nops && ++guard < 100) {
 			uint64_t r = rng.below(100);
+			if (preempt_mode && rng.chance(1, 4)) r = 97; // private caches (own Argon2 fill, own compiler) are where a thread is worth suspending
 			size_t before = b.plan.ops.size();
 			if (r < 30 || my.empty()) {
 				if (next_v >= 16 || (int)my.size() >= 2) { if (my.empty()) break; goto hash_it; }
@@ -523,7 +529,7 @@ static void gen_c14(Builder &b, bool thorough) {
 					int v = next_v++;
 					bool fast = shared_ds && rng.chance(1, 2);
 					if (fast) b.create_vm(v, b.rnd_vm_flags_fast(), rng.chance(1, 4) ? 0 : -1, 0, b.rnd_heap());
-					else b.create_vm(v, b.rnd_vm_flags_light(), (second_cache && rng.chance(1, 2)) ? 1 : 0, -1, b.rnd_heap());
+					else b.create_vm(v, b.rnd_vm_flags_light(), (my_cache >= 0 && rng.chance(1, 3)) ? my_cache : (second_cache && rng.chance(1, 2)) ? 1 : 0, -1, b.rnd_heap());
 					my.push_back(v);
 				}
 			} else if (r < 60) {
@@ -561,7 +567,14 @@ static void gen_c14(Builder &b, bool thorough) {
 					if (next_c >= 8) continue;
 					my_cache = next_c++;
 					b.alloc_cache(my_cache, b.rnd_cache_flags(), b.rnd_heap()); b.init_cache(my_cache, b.rnd_key());
-				} else if (rng.chance(1, 2)) b.init_cache(my_cache, b.rnd_key());
+					if (rng.chance(1, 2)) { Op &o = b.emit(CACHE_CHECK); o.c = my_cache; }
+				} else if (rng.chance(1, 2)) {
+					bool in_batch = false; for (int v : my) if (b.V[v].alive && b.V[v].batch && b.V[v].c == my_cache) in_batch = true;
+					if (in_batch) continue;
+					b.init_cache(my_cache, b.rnd_key());
+					if (rng.chance(1, 2)) { Op &o = b.emit(CACHE_CHECK); o.c = my_cache; }
+					for (int v : my) if (b.V[v].alive && !(b.V[v].flags & F_FULL) && b.V[v].c == my_cache) { b.set_cache(v, my_cache); if (rng.chance(1, 2)) b.hash(v, b.rnd_input()); }
+				}
 				else { for (int v : my) if (b.V[v].alive && !(b.V[v].flags & F_FULL) && b.V[v].c == my_cache) { b.destroy_vm(v); } my.erase(std::remove_if(my.begin(), my.end(), [&](int v) { return !b.V[v].alive; }), my.end()); b.release_cache(my_cache); my_cache = -1; }
 			}
 			emitted += (int)(b.plan.ops.size() - before);
@@ -737,6 +750,34 @@ static void attach_late_faults(Builder &b, bool page_faults, bool hash_faults) {
 	}
 }
 
+// Instruction-level preemption shots: the thread executing the chosen op is suspended after k library instructions of
+// that call (k log-uniform), wherever that is - inside the Argon2 fill, inside JIT-emitted code, between a save and a
+// restore - and another simulated thread runs.
+static void add_preempt_shots(Builder &b, int max_shots) {
+	rt::Rng r = rt::substream(b.plan.seed, "preempt");
+	std::set<int> multi; { std::map<int, std::set<int>> pt; for (auto &o : b.plan.ops) pt[o.phase].insert(o.task); for (auto &kv : pt) if (kv.second.size() > 1) multi.insert(kv.first); }
+	std::vector<int> cand;
+	for (size_t i = 0; i < b.plan.ops.size(); ++i) {
+		const Op &o = b.plan.ops[i];
+		if (!multi.count(o.phase)) continue;
+		if (o.kind == INIT_CACHE || o.kind == INIT_DATASET || o.kind == HASH || o.kind == FIRST || o.kind == NEXT || o.kind == LAST || o.kind == CREATE_VM || o.kind == DESTROY_VM || o.kind == SET_CACHE ||
+		    o.kind == ALLOC_CACHE || o.kind == RELEASE_CACHE || o.kind == SET_V2 || o.kind == CLEAR_V2) cand.push_back((int)i);
+	}
+	if (cand.empty()) return;
+	int n = (int)r.range(1, (uint64_t)max_shots);
+	for (int j = 0; j < n; ++j) {
+		Op &o = b.plan.ops[(size_t)cand[r.below(cand.size())]];
+		if (o.preempt) continue;
+		// a single step costs ~30 us in this VM, so the instruction budget stays small and depth comes from the scheduling
+		// points inside the call (per Argon2 block, per dataset item, per interpreter iteration, per allocation request)
+		o.preempt = 1 + (uint32_t)r.below((uint64_t)1 << r.range(2, 10));
+		if (r.chance(3, 4)) {
+			uint32_t lim = o.kind == INIT_CACHE ? 1200 : (o.kind == HASH || o.kind == FIRST || o.kind == NEXT || o.kind == LAST) ? 600 : o.kind == INIT_DATASET ? (uint32_t)std::min<uint64_t>(o.count + 2, 400) : 8;
+			o.preempt_at = 1 + (uint32_t)r.below((uint64_t)1 << r.range(0, 11)) % lim;
+		}
+	}
+}
+
 // sort ops by phase keeping relative order (tasks of the concurrent phase were emitted task by task)
 static void finish(Plan &p) { std::stable_sort(p.ops.begin(), p.ops.end(), [](const Op &a, const Op &b) { return a.phase < b.phase; }); }
 
@@ -783,12 +824,13 @@ ops::Plan generate(Context &gc, uint64_t run_seed, uint64_t index) {
 			b.attach_env = true;
 			gen_c14(b, thorough);
 			b.plan.note = "threads";
+			if (b.rng.chance(1, 2)) add_preempt_shots(b, 2);
 		} else { ho.env = true; ho.checks = false; history(b, ho); attach_late_faults(b, true, false); }
 	}
 	else if (P == "C15") { ho.faults = true; ho.checks = false; history(b, ho); attach_late_faults(b, false, true); }
 	else if (P == "C16") { ho.secure_only = true; ho.faults = true; ho.checks = false; ho.audit_every = thorough ? 1 : (int)b.rng.range(3, 8); history(b, ho); attach_late_faults(b, true, true); }
-	else if (P == "C14") gen_c14(b, thorough);
-	else if (P == "C08") { if (gc.mode == "keysweep") gen_c08_keysweep(b); else gen_c08(b, thorough); }
+	else if (P == "C14") { gen_c14(b, thorough); if (gc.mode == "preempt") add_preempt_shots(b, 3); }
+	else if (P == "C08") { if (gc.mode == "keysweep") gen_c08_keysweep(b); else gen_c08(b, thorough); if (gc.mode == "preempt") add_preempt_shots(b, 3); }
 	else history(b, ho);
 	finish(b.plan);
 	return b.plan;
